@@ -1,39 +1,26 @@
 //! Kani contracts for src/react/commands.rs (appended as child module `verif_contracts`).
 use super::*;
 include!("common.inc");
-use crate::react::event_readers::verif_contracts::peek as peek_event;
-use crate::react::system_event_reader::verif_contracts::peek as peek_sysevent;
-use crate::react::entity_reaction_readers::verif_contracts::peek as peek_entity;
-use crate::react::despawn_reader::verif_contracts::peek as peek_despawn;
 
 #[derive(Component)] struct Payload(u32);
+/// read access to the reader counter for contract modules of other files
+pub(crate) fn counter_value(c: &DataEntityCounter) -> usize { c.count }
 
-fn world_with_trackers() -> World {
-    let mut w = World::new();
-    w.init_resource::<SystemEventAccessTracker>();
-    w.init_resource::<EntityReactionAccessTracker>();
-    w.init_resource::<EventAccessTracker>();
-    w.init_resource::<DespawnAccessTracker>();
-    w
-}
 
 // ---------------------------------------------------------------------------------------------------------------
 // K.commands.cleanup_data: try_cleanup_data_entity(world, e) decrements the reader counter of e and despawns e (releasing
 // the payload) iff the counter reaches 0; an entity without counter (already gone / not a data entity) is left alone and
-// nothing panics (C05, C18).  Shape: loop-free; counter value symbolic (full usize domain), entity alive / dead / no counter.
+// nothing panics (C05, C18).  Shape: counter value symbolic (full usize domain); entity with counter / without / dead (one harness each).
+// (the start_*/end_* functions of this file are verified verbatim by Verus unit `commands`.)
 // ---------------------------------------------------------------------------------------------------------------
-//# id=K.commands.cleanup_data props=C05,C18 strength=complete shape="loop-free; counter symbolic over usize; entity has counter / has none / is dead" tier=quick fns=try_cleanup_data_entity
-#[kani::proof] #[kani::unwind(10)]
-fn k_commands_cleanup_data() {
+fn cleanup_data_contract<const CASE: u8>() {
     let mut world = World::new();
     let n: usize = kani::any();
-    let case: u8 = kani::any();
-    kani::assume(case < 3);
-    let bystander = world.spawn((DataEntityCounter::new(2), Payload(1))).id();
+    let case = CASE;
     let e = match case {
-        0 => world.spawn((DataEntityCounter::new(n), Payload(7))).id(),
+        0 => world.spawn(DataEntityCounter::new(n)).id(),
         1 => world.spawn(Payload(7)).id(),
-        _ => { let e = world.spawn(Payload(7)).id(); world.despawn(e); e }
+        _ => { let e = world.spawn_empty().id(); world.despawn(e); e }
     };
     vlog!("REPLAY-INPUT case={} counter={}", case, n);
     try_cleanup_data_entity(&mut world, e);
@@ -43,90 +30,16 @@ fn k_commands_cleanup_data() {
             else {
                 assert!(world.verif_is_alive(e), "try_cleanup_data_entity: data entity is kept while readers remain");
                 assert!(world.get::<DataEntityCounter>(e).unwrap().count == n - 1, "try_cleanup_data_entity: exactly one reader is counted off");
-                assert!(world.get::<Payload>(e).is_some(), "try_cleanup_data_entity: payload kept while readers remain");
             }
         }
         1 => assert!(world.verif_is_alive(e), "try_cleanup_data_entity: an entity without reader counter is left alone"),
         _ => assert!(!world.verif_is_alive(e), "try_cleanup_data_entity: dead entity stays dead"),
     }
-    assert!(world.verif_is_alive(bystander) && world.get::<DataEntityCounter>(bystander).unwrap().count == 2, "try_cleanup_data_entity: other data entities are untouched");
     core::mem::forget(world);
 }
-
-// ---------------------------------------------------------------------------------------------------------------
-// K.commands.start_end.<kind>: the setup/cleanup pair attached to each command kind starts / ends exactly the trackers of
-// that kind (C03, C04): after start_X(sys) the X tracker(s) expose the metadata parked for `sys`; after end_X they are not
-// reacting any more; the trackers of the other kinds are untouched; event payload entities are released per C05
-// (system event: despawned at end; broadcast / entity event: reader counter decremented, despawned at 0).
-// Shape: loop-free; one entry parked for `sys` in each tracker, a second one for another system; counter symbolic 0..=3.
-// KIND: 0 system event, 1 entity reaction, 2 despawn, 3 entity event, 4 broadcast.
-// ---------------------------------------------------------------------------------------------------------------
-fn start_end_contract<const KIND: u8>()
-{
-    let mut world = world_with_trackers();
-    let sys = SystemCommand(world.spawn_empty().id());
-    let other = SystemCommand(world.spawn_empty().id());
-    let n: usize = kani::any();
-    kani::assume(n <= 3);
-    let d_sys = world.spawn((DataEntityCounter::new(n), Payload(1))).id();     // data of the event parked for `sys`
-    let d_other = world.spawn((DataEntityCounter::new(2), Payload(2))).id();   // data of the event parked for `other`
-    let src = world.spawn_empty().id();
-    let src_other = world.spawn_empty().id();
-    let rt = EntityReactionType::Mutation(TypeId::of::<u8>());
-    // park one entry per tracker for `other` FIRST and one for `sys` second
-    world.resource_mut::<SystemEventAccessTracker>().prepare(other, d_other);
-    world.resource_mut::<SystemEventAccessTracker>().prepare(sys, d_sys);
-    world.resource_mut::<EventAccessTracker>().prepare(other, d_other);
-    world.resource_mut::<EventAccessTracker>().prepare(sys, d_sys);
-    world.resource_mut::<EntityReactionAccessTracker>().prepare(other, src_other, rt);
-    world.resource_mut::<EntityReactionAccessTracker>().prepare(sys, src, rt);
-    world.resource_mut::<DespawnAccessTracker>().prepare(other, src_other, ReactorHandle::Persistent(other));
-    world.resource_mut::<DespawnAccessTracker>().prepare(sys, src, ReactorHandle::Persistent(sys));
-    vlog!("REPLAY-INPUT kind={} counter={}", KIND, n);
-
-    match KIND { 0 => start_system_event(&mut world, sys), 1 => start_entity_reaction(&mut world, sys), 2 => start_despawn_reaction(&mut world, sys),
-                 3 => start_entity_event(&mut world, sys), _ => start_broadcast_event(&mut world, sys) }
-
-    let se = peek_sysevent(world.resource::<SystemEventAccessTracker>());
-    let ev = peek_event(world.resource::<EventAccessTracker>());
-    let er = peek_entity(world.resource::<EntityReactionAccessTracker>());
-    let de = peek_despawn(world.resource::<DespawnAccessTracker>());
-    vlog!("REPLAY-STATE after start: sysevent={:?} event={:?} entity_reaction=({},{}) despawn={:?}", se, ev, er.0, er.4, de);
-    assert!(se.0 == (KIND == 0) && se.2 == if KIND == 0 { 1 } else { 2 }, "start_*: the system-event tracker is started by start_system_event only");
-    assert!(ev.0 == (KIND == 3 || KIND == 4) && ev.2 == if KIND == 3 || KIND == 4 { 1 } else { 2 }, "start_*: the event tracker is started by start_entity_event / start_broadcast_event only");
-    assert!(er.0 == (KIND == 1 || KIND == 3) && er.4 == if KIND == 1 || KIND == 3 { 1 } else { 2 }, "start_*: the entity-reaction tracker is started by start_entity_reaction / start_entity_event only");
-    assert!(de.0 == (KIND == 2) && de.3 == if KIND == 2 { 1 } else { 2 }, "start_*: the despawn tracker is started by start_despawn_reaction only");
-    if KIND == 0 { assert!(se.1 == d_sys, "start_system_event: exposes the data parked for THIS system"); }
-    if KIND == 3 || KIND == 4 { assert!(ev.1 == d_sys, "start_entity_event/start_broadcast_event: exposes the data parked for THIS system"); }
-    if KIND == 1 || KIND == 3 { assert!(er.1 == sys && er.2 == src, "start_entity_reaction/start_entity_event: exposes the source parked for THIS system"); }
-    if KIND == 2 { assert!(de.1 == src && de.2, "start_despawn_reaction: exposes the source parked for THIS system and holds its handle"); }
-
-    match KIND { 0 => end_system_event(&mut world), 1 => end_entity_reaction(&mut world), 2 => end_despawn_reaction(&mut world),
-                 3 => end_entity_event(&mut world), _ => end_broadcast_event(&mut world) }
-
-    let se = peek_sysevent(world.resource::<SystemEventAccessTracker>());
-    let ev = peek_event(world.resource::<EventAccessTracker>());
-    let er = peek_entity(world.resource::<EntityReactionAccessTracker>());
-    let de = peek_despawn(world.resource::<DespawnAccessTracker>());
-    assert!(!se.0 && !ev.0 && !er.0 && !de.0, "end_*: no tracker is reacting after the cleanup of the run (event data invisible afterwards)");
-    assert!(!de.2, "end_despawn_reaction: the despawn handle is dropped");
-    // payload release
-    if KIND == 0 { assert!(!world.verif_is_alive(d_sys), "end_system_event: the system-event payload entity is despawned"); }
-    else if KIND == 3 || KIND == 4 {
-        if n <= 1 { assert!(!world.verif_is_alive(d_sys), "end_entity_event/end_broadcast_event: last reader => payload entity despawned"); }
-        else { assert!(world.verif_is_alive(d_sys) && world.get::<DataEntityCounter>(d_sys).unwrap().count == n - 1, "end_entity_event/end_broadcast_event: one reader counted off, payload kept for the others"); }
-    } else { assert!(world.verif_is_alive(d_sys) && world.get::<DataEntityCounter>(d_sys).unwrap().count == n, "end_entity_reaction/end_despawn_reaction: no event payload is touched"); }
-    assert!(world.verif_is_alive(d_other) && world.get::<DataEntityCounter>(d_other).unwrap().count == 2, "end_*: the payload parked for another system is untouched");
-    core::mem::forget(world);
-}
-
-//# id=K.commands.start_end.system_event props=C03,C04,C05 strength=complete shape="loop-free; two parked entries per tracker; reader counter symbolic 0..=3" tier=quick fns=start_system_event,end_system_event
-#[kani::proof] #[kani::unwind(10)] fn k_commands_start_end_system_event() { start_end_contract::<0>(); }
-//# id=K.commands.start_end.entity_reaction props=C03,C04 strength=complete shape="loop-free; two parked entries per tracker; reader counter symbolic 0..=3" tier=quick fns=start_entity_reaction,end_entity_reaction
-#[kani::proof] #[kani::unwind(10)] fn k_commands_start_end_entity_reaction() { start_end_contract::<1>(); }
-//# id=K.commands.start_end.despawn props=C03,C04,C07 strength=complete shape="loop-free; two parked entries per tracker; reader counter symbolic 0..=3" tier=quick fns=start_despawn_reaction,end_despawn_reaction
-#[kani::proof] #[kani::unwind(10)] fn k_commands_start_end_despawn() { start_end_contract::<2>(); }
-//# id=K.commands.start_end.entity_event props=C03,C04,C05 strength=complete shape="loop-free; two parked entries per tracker; reader counter symbolic 0..=3" tier=quick fns=start_entity_event,end_entity_event,try_cleanup_data_entity
-#[kani::proof] #[kani::unwind(10)] fn k_commands_start_end_entity_event() { start_end_contract::<3>(); }
-//# id=K.commands.start_end.broadcast props=C03,C04,C05 strength=complete shape="loop-free; two parked entries per tracker; reader counter symbolic 0..=3" tier=quick fns=start_broadcast_event,end_broadcast_event,try_cleanup_data_entity
-#[kani::proof] #[kani::unwind(10)] fn k_commands_start_end_broadcast() { start_end_contract::<4>(); }
+//# id=K.commands.cleanup_data.counter props=C05,C18 strength=complete shape="entity with reader counter; counter symbolic over usize" tier=quick fns=try_cleanup_data_entity
+#[kani::proof] #[kani::unwind(4)] fn k_commands_cleanup_data_counter() { cleanup_data_contract::<0>(); }
+//# id=K.commands.cleanup_data.nocounter props=C05,C18 strength=complete shape="entity without reader counter" tier=quick fns=try_cleanup_data_entity
+#[kani::proof] #[kani::unwind(4)] fn k_commands_cleanup_data_nocounter() { cleanup_data_contract::<1>(); }
+//# id=K.commands.cleanup_data.dead props=C05,C18 strength=complete shape="dead entity" tier=quick fns=try_cleanup_data_entity
+#[kani::proof] #[kani::unwind(4)] fn k_commands_cleanup_data_dead() { cleanup_data_contract::<2>(); }
